@@ -6,15 +6,26 @@ DRIVER = "C21"
 GENERATED = []
 SOURCES = ["src/allmydata/dirnode.py", "src/allmydata/deep_stats.py"]
 DESIGN_REF = "DESIGN.md §2 C21"
-TECHNIQUE = ("Lean 4 theorems over an executable worklist model of deep_traverse on a finite graph (found-set invariant, "
-             "path invariant, termination measure); differential correspondence of the exact walker event sequence "
-             "(add_node / enter_directory with node and path) and of the manifest and deep-stats counters for random "
-             "directory graphs built on the in-process grid; implementation-side monitor on the manifest")
-LEVEL_TEXT = ("at-most-once-per-verifier, paths-lead-to-node and closure/termination theorems proved in Lean for all graphs "
-              "(see the _partial notes); the model is tied to dirnode.py by comparing the full event sequence of a recording "
-              "walker, build_manifest()'s manifest order and start_deep_stats()'s counters.")
-LEVEL_NOTE = ("Lean kernel + standard axioms; Deferred chain modelled as an explicit depth-first stack; sorted() is an input "
-              "ordering; literal files/directories have no verifier and are reported once per link (as the code says).")
+TECHNIQUE = ("Lean 4 theorems over an executable worklist model of deep_traverse on a finite graph: terminates_on_cycles "
+             "(decreasing measure), fuel_graph_size_suffices, terminates_with_nested_literal_dirs (potential constructed from "
+             "cap-length nesting), visits_all_reachable, visits_only_reachable, at_most_once_per_verifier, "
+             "visits_each_object_exactly_once, paths_lead_to_node, stats_count_each_object_once, literal_reported_per_link, "
+             "concurrent_traversals_independent; differential correspondence of the exact walker event sequence (add_node / "
+             "enter_directory with node and path), of the object counters (deepStats) and of interleaved traversals (multi) "
+             "for random directory graphs built on the in-process grid; manifest, deep-stats, deep-check and "
+             "check-and-repair results against the model's events and an independent reference walk")
+LEVEL_TEXT = ("11 theorems proved in Lean for all graphs (cycles, shared subdirectories, objects linked by write cap and read "
+              "cap, repeated literals): the walk terminates, visits every reachable object and nothing else, each object "
+              "with a verify cap exactly once, literal/unknown objects once per link, every reported path leads to its node, "
+              "the object counters count each object once, and traversals running at the same time do not disturb each "
+              "other.  No _partial theorem remains.  The model is tied to dirnode.py by comparing the full event sequence of "
+              "recording walkers (alone and three at a time), the object counters, build_manifest()'s order and the "
+              "statistics / objects-checked / result paths of deep-stats, deep-check (verify or not) and check-and-repair. "
+              "Correspondence/monitor only: the walker classes beyond the object counters (sizes, histogram, check results).")
+LEVEL_NOTE = ("Lean kernel + standard axioms; the Deferred chain is an explicit depth-first stack; sorted() is an input "
+              "ordering; object identity (verifier) in the driver graph comes from the construction (write cap and read cap of "
+              "one object), not from get_verify_cap(); literal files/directories have no verifier and are reported once per "
+              "link (as the code says).")
 RULE = ("random directory graphs of up to 40 objects (mutable SDMF/MDMF directories with cycles and shared subdirectories, "
         "immutable CHK/LIT directories, CHK/LIT/mutable files, unknown caps; links by write cap or by read cap, the same "
         "object linked both ways; literal files linked twice and an empty literal file) built on the grid; deep_traverse "
@@ -25,12 +36,17 @@ RULE = ("random directory graphs of up to 40 objects (mutable SDMF/MDMF director
         "together on the root (and on a second node of the same cap) under a random / fifo / lifo delivery policy, each "
         "of which must give what it gives alone; a case = one traversal; non-trivial = at least "
         "3 objects reachable")
-TRUSTED = ["lean/Tahoe/Dir/Traverse.lean is a hand transcription of the traversal (explicit stack for the recursion over dirkids)",
+TRUSTED = ["lean/Tahoe/Dir/Traverse.lean is a hand transcription of the traversal (explicit stack for the recursion over dirkids; "
+           "several traversals share only the graph)",
            "harness/grid.py; the graph sent to the driver is read back from the real directories (list() of every directory node)"]
-ASSUMPTIONS = ["a literal directory nested in a literal directory has a strictly shorter cap string (checked on every graph)",
-               "children of one object seen through its write cap and through its read cap have the same names and verifiers "
-               "(checked on every generated graph)",
-               "the traversal runs without concurrent modification of the directories"]
+ASSUMPTIONS = ["a literal directory nested in a literal directory has a strictly shorter cap string (hypothesis hsize of "
+               "terminates_with_nested_literal_dirs; checked on every graph)",
+               "children of one object seen through its write cap and through its read cap have the same names and the same child "
+               "objects (hypothesis Consistent of visits_all_reachable; checked on every generated graph)",
+               "names of one directory are distinct; unknown nodes have no verify cap; every verify cap lies in a finite list "
+               "(hypotheses hnames, hunk, hU)",
+               "the traversal runs without concurrent *modification* of the directories; cancellation and errors from list() "
+               "are not covered"]
 
 import json
 import os
